@@ -467,6 +467,11 @@ class Ctx:
         self.replay_n = 0
 
     # -- bookkeeping -------------------------------------------------------------------------
+    def over_budget(self):
+        """generators stop producing new cases when the tier's wall-clock budget is used up"""
+        limit = float(os.environ.get("VERIF_BUDGET_S", "100" if self.tier == "quick" else "800"))
+        return time.time() - self.t0 > limit
+
     def count(self, key, n=1):
         self.dist[key] = self.dist.get(key, 0) + n
 
